@@ -65,20 +65,22 @@ Inductive stmt :=
 (* ------------------------------------------------------------------------------------ *)
 (** * Database::insert_row / insert_rows_batch (database/operations.rs) on one table *)
 
-(** insert_row: storage-level unique-index check, Table::insert, then the user indexes *)
-Definition db_insert_row (t : table) (r : row) : serr + table :=
-  if uidx_unique_violation (t_uidx t) r then inl SNullViolation (* UniqueConstraintViolation *)
+(** insert_row: storage-level unique-index check, Table::insert, then the user indexes.
+    Returns the table and whether the call succeeded (a failure happens before any mutation). *)
+Definition db_insert_row (t : table) (r : row) : table * bool :=
+  if uidx_unique_violation (t_uidx t) r then (t, false)       (* UniqueConstraintViolation *)
   else
     let n := length (t_rows t) in
     match tbl_insert t r with
-    | inl e => inl e
-    | inr t' => inr (set_uidx t' (uidx_for_insert (t_uidx t') r n))
+    | inl _ => (t, false)
+    | inr t' => (set_uidx t' (uidx_for_insert (t_uidx t') r n), true)
     end.
 
-Fixpoint tbl_insert_all (t : table) (rows : list row) : serr + table :=
+(** [for row in &rows { table.insert(row.clone())?; }]: a failing row leaves the earlier ones in *)
+Fixpoint tbl_insert_all (t : table) (rows : list row) : table * bool :=
   match rows with
-  | [] => inr t
-  | r :: rest => match tbl_insert t r with inl e => inl e | inr t' => tbl_insert_all t' rest end
+  | [] => (t, true)
+  | r :: rest => match tbl_insert t r with inl _ => (t, false) | inr t' => tbl_insert_all t' rest end
   end.
 
 Fixpoint uidx_add_all (us : list uindex) (n : nat) (rows : list row) : list uindex :=
@@ -89,14 +91,12 @@ Fixpoint uidx_add_all (us : list uindex) (n : nat) (rows : list row) : list uind
 
 (** insert_rows_batch: every row is checked against the user indexes AS THEY ARE BEFORE THE
     BATCH, then all rows go into the table, then all rows go into the user indexes *)
-Definition db_insert_batch (t : table) (rows : list row) : serr + table :=
-  if existsb (uidx_unique_violation (t_uidx t)) rows then inl SNullViolation
+Definition db_insert_batch (t : table) (rows : list row) : table * bool :=
+  if existsb (uidx_unique_violation (t_uidx t)) rows then (t, false)
   else
     let n := length (t_rows t) in
-    match tbl_insert_all t rows with
-    | inl e => inl e
-    | inr t' => inr (set_uidx t' (uidx_add_all (t_uidx t') n rows))
-    end.
+    let '(t1, ok) := tbl_insert_all t rows in
+    if ok then (set_uidx t1 (uidx_add_all (t_uidx t1) n rows), true) else (t1, false).
 
 (* ------------------------------------------------------------------------------------ *)
 (** * INSERT ... VALUES (execute_insert_internal) *)
@@ -111,15 +111,11 @@ Definition do_insert_values (t : table) (rows : list row) : table * result * lis
     match rows with
     | [] => (t, ROk 0, [])
     | [r] =>
-        match db_insert_row t r with
-        | inl _ => (t, RErrStorage, [])
-        | inr t' => (t', ROk 1, [r])
-        end
+        let '(t', ok) := db_insert_row t r in
+        if ok then (t', ROk 1, [r]) else (t', RErrStorage, [])
     | _ =>
-        match db_insert_batch t rows with
-        | inl _ => (t, RErrStorage, [])     (* unreachable after validation except the unique-index check *)
-        | inr t' => (t', ROk (length rows), rows)
-        end
+        let '(t', ok) := db_insert_batch t rows in
+        if ok then (t', ROk (length rows), rows) else (t', RErrStorage, [])
     end.
 
 (* ------------------------------------------------------------------------------------ *)
@@ -146,10 +142,9 @@ Fixpoint bulk_loop (t : table) (seen_pk : list key) (seen_uq : list (list key)) 
       else
         let seen_pk' := match s_pk s with Some cols => seen_pk ++ [proj cols r] | None => seen_pk end in
         let seen_uq' := bulk_seen_uq_push (s_uniqs s) seen_uq r in
-        match db_insert_row t r with
-        | inl _ => (t, RErrStorage, ins)
-        | inr t' => bulk_loop t' seen_pk' seen_uq' rest (S cnt) (ins ++ [r])
-        end
+        let '(t', ok) := db_insert_row t r in
+        if ok then bulk_loop t' seen_pk' seen_uq' rest (S cnt) (ins ++ [r])
+        else (t', RErrStorage, ins)
   end.
 
 (** The bulk path reads the source table's rows directly ([src_table.scan()]).  The fallback
@@ -173,10 +168,12 @@ Fixpoint scan_from (n : nat) (w : option pred) (rows : list row) : list (nat * r
       if keep then (n, r) :: scan_from (S n) w rest else scan_from (S n) w rest
   end.
 
-(** extract_primary_key_lookup: WHERE <single pk column> = <literal> *)
+(** extract_primary_key_lookup: WHERE <single pk column> = <literal>.  The right-hand side must be
+    an [Expression::Literal]; the parser reads a negative number as unary minus applied to a
+    literal, so [c = -5] does not qualify and goes through the scan. *)
 Definition pk_lookup (s : schema) (w : option pred) : option key :=
   match w, s_pk s with
-  | Some (PCmpC c OEq v), Some [pc] => if c =? pc then Some [Some v] else None
+  | Some (PCmpC c OEq v), Some [pc] => if (c =? pc) && (0 <=? v)%Z then Some [Some v] else None
   | _, _ => None
   end.
 
@@ -238,13 +235,14 @@ Fixpoint upd_build (t : table) (asg : list (nat * sexpr)) (cands : list (nat * r
       end
   end.
 
-(** step 8: update_row_selective for every planned row *)
-Fixpoint upd_apply_rows (t : table) (changed : list nat) (us : list (nat * row * row)) : serr + table :=
+(** step 8: update_row_selective for every planned row; a failing row leaves the earlier
+    ones updated *)
+Fixpoint upd_apply_rows (t : table) (changed : list nat) (us : list (nat * row * row)) : table * bool :=
   match us with
-  | [] => inr t
+  | [] => (t, true)
   | (i, _, new) :: rest =>
       match tbl_update_row_selective t i new changed with
-      | inl e => inl e
+      | inl _ => (t, false)
       | inr t' => upd_apply_rows t' changed rest
       end
   end.
@@ -266,33 +264,37 @@ Definition do_update (t : table) (asg : list (nat * sexpr)) (w : option pred) : 
         | UPanic => (t, RPanic)
         | UConstraint => (t, RErrConstraint)
         | UPlan ups =>
-            match upd_apply_rows t (map fst asg) ups with
-            | inl _ => (t, RErrStorage)     (* unreachable: the new rows passed validate_not_null *)
-            | inr t' => (set_uidx t' (upd_apply_uidx (t_uidx t') ups), ROk (length ups))
-            end
+            let '(t', ok) := upd_apply_rows t (map fst asg) ups in
+            if ok then (set_uidx t' (upd_apply_uidx (t_uidx t') ups), ROk (length ups))
+            else (t', RErrStorage)
         end
     end.
 
 (* ------------------------------------------------------------------------------------ *)
 (** * DELETE / TRUNCATE *)
 
-(** DELETE: without WHERE (no triggers, not FK-referenced) the executor calls [Table::clear]
-    and returns; with WHERE it removes the selected rows with [Table::delete_where] and then
-    calls [Database::rebuild_indexes(&stmt.table_name)] -- which looks the table up with
-    [tables.get(table_name)] in a map keyed by the QUALIFIED name ("public.T"), finds nothing
-    for the unqualified name the parser produces, and returns without touching any index. *)
+(** Database::rebuild_indexes(table): every user index of the table is rebuilt from the
+    table's current rows (IndexManager::rebuild_indexes) *)
+Definition db_rebuild_uidx (t : table) : table := set_uidx t (uidx_rebuild (t_uidx t) (t_rows t)).
+
+(** DELETE: without WHERE (no triggers, not FK-referenced) the executor takes the truncate fast
+    path: [Table::clear], then [Database::rebuild_indexes].  With WHERE it removes the selected
+    rows with [Table::delete_where] (positions shift, the hash maps are rebuilt) and then calls
+    [Database::rebuild_indexes]. *)
 Definition do_delete (t : table) (w : option pred) : table * result :=
   match w with
-  | None => (tbl_clear t, ROk (length (t_rows t)))
+  | None => (db_rebuild_uidx (tbl_clear t), ROk (length (t_rows t)))
   | Some _ =>
       match select_rows t w with
       | None => (t, RPanic)
       | Some sel =>
-          let '(t', n) := tbl_delete_at t (map fst sel) in (t', ROk n)
+          let '(t', n) := tbl_delete_at t (map fst sel) in (db_rebuild_uidx t', ROk n)
       end
   end.
 
-Definition do_truncate (t : table) : table * result := (tbl_clear t, ROk (length (t_rows t))).
+(** TRUNCATE TABLE (truncate/core.rs execute_truncate): Table::clear, rebuild_indexes *)
+Definition do_truncate (t : table) : table * result :=
+  (db_rebuild_uidx (tbl_clear t), ROk (length (t_rows t))).
 
 (* ------------------------------------------------------------------------------------ *)
 (** * CREATE / DROP INDEX *)
@@ -493,6 +495,11 @@ Definition step (d : db) (s : stmt) : db * result :=
   end.
 
 Definition run (d : db) (ss : list stmt) : db := fold_left (fun d s => fst (step d s)) ss d.
+
+(** a schema as CREATE TABLE produces it: both copies carry the same CHECK list *)
+Definition mk_schema (n : nat) (nn : list bool) (pk : option (list nat)) (uq : list (list nat))
+           (cs : list pred) : schema :=
+  {| s_ncols := n; s_notnull := nn; s_pk := pk; s_uniqs := uq; s_checks_enf := cs; s_checks_decl := cs |}.
 
 Definition db_init (schemas : list schema) : db :=
   {| d_tabs := map table_new schemas; d_txn := None |}.
